@@ -1,6 +1,7 @@
 import CnbVerif.Driver.C04
 import CnbVerif.Driver.C03
 import CnbVerif.Driver.C01
+import CnbVerif.Driver.C02
 import CnbVerif.Driver.C10
 import CnbVerif.Driver.C19
 import CnbVerif.Driver.C13
@@ -13,6 +14,8 @@ import CnbVerif.Driver.C17
 import CnbVerif.Driver.C07
 import CnbVerif.Driver.C16
 import CnbVerif.Driver.C06
+import CnbVerif.Driver.C15
+import CnbVerif.Driver.C12
 /-!
 Model driver. One request per line, tab separated: `<property> \t <input fields…> \t <implementation observation>`.
 Answer: `<model observation> \t <spec verdict on the implementation's observation>`.
@@ -29,6 +32,7 @@ def dispatch (line : String) : String :=
         if prop = "c04" then DriverC04.handle fields obs
         else if prop = "c03" then DriverC03.handle fields obs
         else if prop = "c01" then DriverC01.handle fields obs
+        else if prop = "c02" then DriverC02.handle fields obs
         else if prop = "c10" then DriverC10.handle fields obs
         else if prop = "c19" then DriverC19.handle fields obs
         else if prop = "c13" then DriverC13.handle fields obs
@@ -41,6 +45,8 @@ def dispatch (line : String) : String :=
         else if prop = "c07" then DriverC07.handle fields obs
         else if prop = "c16" then DriverC16.handle fields obs
         else if prop = "c06" then DriverC06.handle fields obs
+        else if prop = "c15" then DriverC15.handle fields obs
+        else if prop = "c12" then DriverC12.handle fields obs
         else ("bad-op", "bad-op")
       m ++ "\t" ++ v
     | [] => "bad-op\tbad-op"
